@@ -222,19 +222,26 @@ def label_of(case, n, mixed):
 
 
 def run_case(args):
-    """one operation on one placement, on every backend that supports it; returns (evaluations, [violation texts])"""
-    case, n, mixed, prop = args
+    """one operation on one placement, on every backend that supports it; returns (evaluations, [violation texts]).
+    deleted=True: the register has one more mode in front which is deleted first, so that the external index of every mode
+    differs from its position in simulators that compact their storage"""
+    case, n, mixed, prop = args[:4]
+    deleted = bool(args[4]) if len(args) > 4 else False
     out, ev = [], 0
-    label = label_of(case, n, mixed)
+    label = label_of(case, n, mixed) + (" after Del | q[0] (indices shifted by one)" if deleted else "")
     backends = ("gaussian", "bosonic") if case[0] == "thermal_loss" else ("gaussian", "bosonic", "fock")
+    off = 1 if deleted else 0
     for backend in backends:
         ref = Ref(n)
-        prog = sf.Program(n)
+        prog = sf.Program(n + off)
         with prog.context as q:
+            if deleted:
+                ops.Del | q[0]
+            qq = [q[k + off] for k in range(n)]
             if mixed:
-                ops.LossChannel(0.9) | q[0]; ref.loss(0.9, 0.0, 0)
-            base_circuit(q, n, ref)
-            apply_case(case, q, ref)
+                ops.LossChannel(0.9) | qq[0]; ref.loss(0.9, 0.0, 0)
+            base_circuit(qq, n, ref)
+            apply_case(case, qq, ref)
         kw = {"cutoff_dim": CUT if n == 2 else CUT3} if backend == "fock" else {}
         try:
             st = sf.Engine(backend, backend_options=kw).run(prog).state
@@ -286,6 +293,9 @@ if __name__ == "__main__":
     try:
         import multiprocessing as mp
         todo = [(c, n, mixed, PROP) for (c, n, mixed) in cases()]
+        if PROP in ("C01", "C05", "all"):
+            # every operation once more on a register whose first mode was deleted (2 live modes, pure)
+            todo += [(c, n, mixed, PROP, True) for (c, n, mixed) in cases() if n == 2 and not mixed and not c[4]]
         with mp.Pool(min(14, os.cpu_count() or 2)) as pool:
             for ev, out in pool.imap_unordered(run_case, todo, chunksize=2):
                 EVAL[0] += ev
